@@ -35,6 +35,23 @@ CLAIMED = {
              "harness, the POSIX regex model validated by sampling. C-level memory safety only via ASan runs.",
         technique="Lean 4 proofs (round trip, soundness, totality) + differential correspondence",
         ref="DESIGN.md §5 C12"),
+    "C01": dict(
+        text="Lean 4 proof of exact delivery for the framing layer shared by tcp and tls (xcm_tp_tcp.c = xcm_tp_tls.c): "
+             "for ANY op sequence of the sender and ANY op sequence of the receiver, under any short-write/short-read/"
+             "EAGAIN/error/EOF behaviour of the byte-stream layer below and a FIFO channel, the complete messages "
+             "consumed by successful receives are a prefix of the messages whose send returned success, each returned "
+             "as its leading `capacity` bytes (C01_exact_delivery, C01_never_partial; induction over unbounded "
+             "histories via a sender wire invariant and a receiver stream invariant, unique decodability "
+             "frames_prefix). Tie: the real xcm_tp_tcp.c and xcm_tp_tls.c, #included unmodified over a scripted lower "
+             "layer (ASan+UBSan), produce line by line the model's rc/errno/payload/8 counters/buffer state/bytes handed "
+             "down on generated histories; an independent delivery monitor checks the implementation's output alone. "
+             "ux/uxf/utls legs: see level_note.",
+        note="Proof covers tcp and tls framing relative to the byte-stream contract of the layer below (FIFO, sticky "
+             "failure = C02/C06 of btcp/btls). Not yet inside the Lean model: the UX seqpacket transport, UTLS "
+             "delegation and the blocking wrappers of xcm.c (they are sequences of the modelled non-blocking steps). "
+             "Correspondence is sampled differential testing. Axioms: propext, Classical.choice, Quot.sound.",
+        technique="Lean 4 invariant proof over unbounded histories + differential correspondence on the real framing code",
+        ref="DESIGN.md §5 C01"),
 }
 
 PENDING_REASON = "not yet built in this round: no check is claimed for it (the design in DESIGN.md §5 stands; " \
